@@ -97,6 +97,23 @@
 //     with otel_scope_name on the data points). Two scopes whose info series
 //     would get the same label set are a registry Prometheus rejects by
 //     design (weak treatment).
+//   - conflicting families: instruments of DIFFERENT scopes that map to one
+//     exported family name and differ in kind / description / unit are
+//     generated on purpose (genConflicts). Values stay unasserted there (which
+//     definition wins depends on the order in which the SDK hands the scopes
+//     over), but when the scope labels are on and the partners' scopes differ
+//     in (name, version) - and the case has no other weakness - the registry
+//     must accept EVERY scrape: Gather returns no error (one type and one help
+//     per family within a scrape) and nothing unexpected goes to otel.Handle
+//     (on the unchanged tree a later definition of another type is dropped and
+//     a later help text replaced, reported through the logger only). Clashes
+//     inside one scope, without scope labels or with a View that would match
+//     two instruments stay "no panic only".
+//   - concurrent FIRST scrapes (concurrent cases): on 2..6 fresh exporters all
+//     measurements are recorded and then 2..8 Gather calls are released
+//     together (with generated start perturbations) before any other scrape of
+//     that exporter; each of them and the scrape after them is held to the
+//     acceptance clause above.
 //   - a scrape of an exporter that no MeterProvider knows (Case.Early: the
 //     registry is scraped before NewMeterProvider(WithReader(exporter));
 //     Case.Ghost: a second exporter with its own registry that is never
@@ -121,6 +138,15 @@
 //     handled "exemplar labels have N runes" error is tolerated only once a
 //     measurement with the long value has been made.
 //
+// Defect found by this check and since repaired in /repo (9e9b55c): a
+// description conflict whose first seen description is EMPTY was not resolved
+// (validateMetrics returned the existing help "", Collect replaced the
+// description only if that was non-empty), the later instruments kept their
+// own help and the registry rejected the whole scrape ('has help "x" but should
+// have ""'). Regression replay:
+// replays/regress/C18/help_conflict_first_description_empty.json. (The
+// predicate knownEmptyFirstHelp is kept for reference, it is not registered.)
+//
 // Defect found by this check and since repaired in /repo (see
 // known_findings.json, "fixed: property=C18 ... ':'"): under the legacy scheme
 // the exporter escaped attribute keys with the METRIC name rule, which keeps
@@ -141,17 +167,17 @@ func TestScrapeModel(t *testing.T) {
 		Rule: "a registry: exporter options x {UTF-8, legacy} scheme, resource, 1..3 scopes (names may repeat; attributes from a pool with the reserved labels otel_scope_name/version, keys sanitising to them, ordinary and mutually colliding keys), 1..6 instruments (14 kinds; histograms explicit-bucket or base-2 exponential with MaxSize {160,20,4} x MaxScale {20,3,0,-2} and positive/negative/zero values) with grammar names biased to total/unit words, all table units + unknown ones, one (often colliding) key set with 1..5 tuples, exact measurements (some in sampled span contexts, with a View-filtered attribute that becomes the exemplar's, short or over-long), optionally a scrape before the exporter is registered and a second never-registered exporter scraped in between, 1..3 sequential scrapes each compared with a ManualReader on the same provider; " +
 			"non-trivial = some instrument name contains 'total' or a unit word, or attribute keys collide after sanitisation under the legacy scheme; distinct = distinct case encodings",
 		Quick: 4000, Thorough: 40000,
-		Gen: genCase(false), Run: runSeq,
+		Gen: genCase(false, 20), Run: runSeq,
 	})
 }
 
 func TestConcurrentScrapes(t *testing.T) {
 	vk.Run(t, vk.Spec[Case]{
 		Property: "C18", Check: "concurrent_scrapes",
-		Rule: "the same registries, scraped by 2..4 goroutines (1..3 Gather calls each) concurrently with 1..3 measuring goroutines, on 1..3 fresh exporters, under the race detector; then one quiescent scrape compared exactly; " +
+		Rule: "the same registries (half of them with conflicting families across scopes); first 2..8 concurrent FIRST scrapes on each of 2..6 fresh exporters after all measurements, then the registry scraped by 2..4 goroutines (1..3 Gather calls each) concurrently with 1..3 measuring goroutines, on 1..3 fresh exporters, under the race detector; then one quiescent scrape compared exactly; " +
 			"non-trivial = every case (>= 2 concurrent scrapes); distinct = distinct case encodings",
 		Quick: 1200, Thorough: 12000,
-		Gen: genCase(true), Run: runConc,
+		Gen: genCase(true, 50), Run: runConc,
 		Repeat: 20,
 	})
 }
